@@ -26,13 +26,13 @@ type H struct {
 	Steps []Step `json:"steps"`
 }
 
-const rule = "a 3-node Raft cluster (three RaftNodes over RocksDB in one executor child, loopback transport) under rapid-drawn fault sequences of 8-30 steps: single / bulk adds on whoever leads, stop a follower (Close), restart it on its directories (catch-up by log replay), transfer leadership, check. At every check and at the end the cluster is awaited to quiescence (<=60 s) and all live replicas must report the same applied index and version, hold byte-identical hyper, hyper-cache, history and FSM-state tables, and each replica must answer sampled membership and consistency queries with proofs that verify against the snapshots the leaders returned to the client. Non-trivial: the sequence has a follower restart or a leadership transfer followed by >=1 add and a check. distinct = FNV-64 of the sequence."
+const rule = "a 3-node Raft cluster (three RaftNodes over RocksDB in one executor child, loopback transport) under rapid-drawn fault sequences of 8-30 steps: single / bulk adds on whoever leads (about one sequence in four contains a bulk of 1001-2001 events), stop a follower (Close), restart it on its directories (catch-up by log replay), transfer leadership, check. At every check and at the end the cluster is awaited to quiescence (<=60 s) and all live replicas must report the same applied index and version, hold byte-identical hyper, hyper-cache, history and FSM-state tables, and each replica must answer sampled membership and consistency queries with proofs that verify against the snapshots the leaders returned to the client. Non-trivial: the sequence has a follower restart or a leadership transfer followed by >=1 add and a check. distinct = FNV-64 of the sequence."
 
 func TestReplicas(t *testing.T) {
 	rec := pbt.NewRec("C06", "TestReplicas", rule, "no network partitions or message loss are generated (no transport hook); replicas share a process, clock and scheduler")
 	pbt.Run(t, rec, func(rt *rapid.T) H {
 		var h H
-		seq, stopped := 0, false
+		seq, stopped, big := 0, false, false
 		for i, n := 0, rapid.IntRange(8, pbt.Scale(18, 30)).Draw(rt, "nsteps"); i < n; i++ {
 			ops := []string{"add", "add", "add", "transfer", "check"}
 			if stopped {
@@ -46,6 +46,10 @@ func TestReplicas(t *testing.T) {
 				single := rapid.Bool().Draw(rt, "single")
 				if !single {
 					k = rapid.IntRange(1, 6).Draw(rt, "bulk")
+				}
+				if !big && rapid.IntRange(0, 24).Draw(rt, "big") == 0 {
+					// one bulk above the 1000-entry page with which a restarted replica re-reads its recovery tiles
+					k, single, big = rapid.SampledFrom([]int{1001, 1200, 2001}).Draw(rt, "big-n"), false, true
 				}
 				var es []string
 				for j := 0; j < k; j++ {
